@@ -91,6 +91,10 @@ def routes_for(sk, v, tier):
     for sp in sp_quick:
         if R.spell(v, sp) is not None:
             out.append(("lit", sp))
+    if v < 0 and sk["form"] != "pcr":
+        # a negative constant reached through an EQU symbol (its value, not its width, is what the README defines)
+        out.append(("equ_before", "dec"))
+        out.append(("equ_after", "dec"))
     if v >= 0 and sk["form"] != "pcr":
         for sp in (["dec", "hex4", "hex2", "hex"] if tier == "quick" else sp_quick):
             if R.spell(v, sp) is not None:
@@ -278,5 +282,5 @@ def describe(tier):
                   "unless < or > is written; 5/8/16-bit offsets interchangeable",
         "rule": "complete product enumeration; a state is (mnemonic, decoded semantic record); non-trivial = accepted and decoded",
         "assumptions": ["DP assumed 0 (SETDP not explored)", "datasheet opcode map in ref_data/mc6809_opcodes.tsv is correct",
-                        "negative EQU constants are not used as operands (README does not define their width)"],
+                        "EQU symbols are not used in n,PCR operands (offset or target is undocumented)"],
     }
